@@ -6,11 +6,12 @@
    writes what the code returns into Gen/CheckTables.v. The lemma below recomputes every row with the hand-written
    model: the threshold choice (flag given > merged config > flag default), the complexity comparison, which analyses
    run for which --select list, which issue counts are added under --allow-dead-code / --allow-circular-deps /
-   --max-cycles, that a clone failure is not an error, and the final decision. The comparison operators of
+   --max-cycles, that a clone failure is not an error, and the final decision; and dependencyProjectRoots /
+   checkCircularDependencies (which targets are project roots; the sum over the roots, the first failure). The comparison operators of
    Gen/CheckConst.v are themselves read off by evaluation. A logically equivalent rewrite of check.go (De Morgan,
    if-chain -> switch, guard + continue, named temporaries) leaves the tables unchanged. *)
 From Coq Require Import ZArith NArith List String Bool.
-From PV Require Import Gen.DomainConst Gen.CheckConst Gen.CheckTables Cli.Gate.
+From PV Require Import Gen.DomainConst Gen.CheckConst Gen.CheckTables Cli.Gate Cli.GateRoots.
 Import ListNotations.
 Open Scope Z_scope.
 
@@ -54,9 +55,35 @@ Definition run_row (r : ((list string * ((bool * bool * bool * bool) * Z)) * lis
   | _ => false
   end.
 
-Definition gate_tables_agree : bool := forallb cx_row checkComplexity_table && forallb run_row runCheck_table.
+(* ---- checkCircularDependencies over several targets (Cli/GateRoots.v) ------------------------------------------- *)
+(* dependencyProjectRoots run on lists of absolute targets (spelled with trailing slashes and dir/../ too; a name that
+   is a string prefix of another, the root directory): the targets that are project roots, by their cleaned components *)
+Fixpoint apaths_eqb (a b : list apath) : bool :=
+  match a, b with
+  | [], [] => true
+  | x :: a', y :: b' => apath_eqb x y && apaths_eqb a' b'
+  | _, _ => false
+  end.
+
+Definition roots_row (r : list (list N) * list (list N)) : bool :=
+  let '(args, roots) := r in apaths_eqb (dependency_project_roots [] args) roots.
+
+(* checkCircularDependencies run with the analysis of one root stubbed out: (cycles, error) of each root -> (total, error) *)
+Definition circ_row (r : list (Z * bool) * (Z * bool)) : bool :=
+  let '(roots, (total, failed)) := r in
+  let f := Build_flags true None false false false None [] in
+  let rs := map (fun ne => Build_results [] false [] false [] false (map (fun id => (id, true)) (tie_ids (fst ne))) (snd ne) [] false) roots in
+  match fst (check_circular_roots f rs) with
+  | Some n => negb failed && (n =? total)
+  | None => failed
+  end.
+
+Definition gate_tables_agree : bool :=
+  forallb cx_row checkComplexity_table && forallb run_row runCheck_table &&
+  forallb roots_row dependencyProjectRoots_table && forallb circ_row checkCircularDependencies_table.
 Definition gate_tables_nonempty : bool :=
-  Nat.leb 40 (List.length checkComplexity_table) && Nat.leb 500 (List.length runCheck_table).
+  Nat.leb 40 (List.length checkComplexity_table) && Nat.leb 500 (List.length runCheck_table) &&
+  Nat.leb 300 (List.length dependencyProjectRoots_table) && Nat.leb 12 (List.length checkCircularDependencies_table).
 
 Lemma gate_tables_agree_ok : gate_tables_agree = true /\ gate_tables_nonempty = true.
 Proof. split; vm_compute; reflexivity. Qed.
